@@ -12,7 +12,8 @@ cd "$wt" || exit 2
 git apply "$patch" || { echo "patch does not apply"; exit 2; }
 if ! go build ./... 2>"$wt.build.log"; then echo "NOT-A-MUTANT (does not build): $(head -3 $wt.build.log)"; rm -f $wt.build.log; exit 0; fi
 rm -f $wt.build.log
-if ! go test -vet=off -count=1 ./... > "$wt.test.log" 2>&1; then echo "NOT-A-MUTANT (pinned tests fail): $(grep -m3 -e FAIL -e '^---' $wt.test.log | tr '\n' ' ')"; rm -f $wt.test.log; exit 0; fi
+# the suite binds fixed ports (RCON 25575): a failure while another scratch tree runs it is retried once
+if ! go test -vet=off -count=1 ./... > "$wt.test.log" 2>&1 && { sleep $((5 + RANDOM % 10)); ! go test -vet=off -count=1 ./... > "$wt.test.log" 2>&1; }; then echo "NOT-A-MUTANT (pinned tests fail): $(grep -m3 -e FAIL -e '^---' $wt.test.log | tr '\n' ' ')"; rm -f $wt.test.log; exit 0; fi
 rm -f $wt.test.log
 cd "${VERIF_HOME:-/verif}"
 out=$(VERIF_REPO="$wt" VERIF_EVIDENCE_DIR="$wt/evidence" timeout 2400 ./check.sh "$id" "$tier" 2>&1); rc=$?
